@@ -114,7 +114,7 @@ ROUND7 = {
  "C03": "Queues of 3 / 9 waiters in which an answered waiter stays behind a live head and is cancelled again.",
  "C06": "Renewals that turn a timed hold into an unlimited one or give it the longest period.",
  "C07": "Log buffer 64 with rotation (a value-carrying record that fills the buffer triggers the rotation); the smallest minute-unit values; a renewed hold whose first record has lapsed.",
- "C10": "Replicated holds given in milliseconds on a follower whose leader is silent.",
+ "C10": "Replicated holds given in milliseconds on a follower whose leader is silent; an INIT frame in the middle of a connection, a holder the leader never logs next to concurrent-check requests, and a binary connection that switches to text with ADMIN, each against the leader and through a follower.",
  "C13": "Every stream runs under happens-before tracking (vector clocks over mutexes, atomics, channels, network, spawn) with every map access of the server instrumented: two accesses to one map, one of them a write, that are not ordered are reported as the pair the Go runtime kills the process for, whatever the timing; a group runs every listing / inspection command between writers of the slow-key map; a group sends acknowledgement-required show / update requests beside a hold that claims to come from the log.",
  "C14": "Every key-value command form between a LOCK and an UNLOCK without LOCK_ID on one text connection.",
  "C17": "An enumeration fills one key with 120..248 holders, releases them first-in first-out (every record is promoted to current holder and released as such, also those kept in the map-indexed form of the holder queue), lets one LockId come back and compares the reported counts with a census at every stage.",
